@@ -348,7 +348,16 @@ fn do_op(w: &mut World, op: &Value, e: &mut Map<String, Value>) -> Result<(), St
         }
         "register" => {
             let n = geti(op, "n") as usize;
-            let pat = &w.pools.consts[0][..n]; // 251
+            let mut pat = &w.pools.consts[0][..n]; // 251
+            if op["alias"].as_bool() == Some(true) {
+                // the pattern is read from the tail of the object's own last stable slice (bytes that may sit at the tip of
+                // its arena): register_patch must still make its own copy of it
+                if let Some(last) = obj!().stable_prefix().last() {
+                    if last.len() >= n && n > 0 {
+                        pat = unsafe { std::slice::from_raw_parts(last.as_ptr().add(last.len() - n), n) };
+                    }
+                }
+            }
             let tok = obj!().register_patch(pat);
             e.insert("ret".into(), json!(tok.len()));
             w.tokens.insert(geti(op, "id"), (oid, tok));
